@@ -77,6 +77,25 @@ func runC11(src sim.Source, o Opts) *Result {
 			res.inc("runs_stopped_setup_write_disagrees_with_map_model")
 			break
 		}
+		if src.Intn("manyverbs", 6) == 5 && len(rr.pool) > 0 {
+			// one pattern registered under many verbs with long names (WebDAV/DeltaV style, without the hyphens fox's method check refuses): the Allow value for it, and
+			// for '*', runs to well over a hundred bytes
+			pi := src.Intn("manyverbspat", len(rr.pool))
+			for _, verb := range []string{"PROPFIND", "PROPPATCH", "MKCOL", "VERSIONCONTROL", "MKWORKSPACE", "BASELINECONTROL", "MKACTIVITY", "ORDERPATCH", "UNCHECKOUT", "REPORT"} {
+				rr.nextTag++
+				op := WOp{Kind: "handle", Method: verb, Pat: pi, Tag: rr.nextTag, Opt: world.RouteOpt{TS: 1 + src.Intn("manyverbsts", 3)}}
+				want := applyModel(rr.set, rr.cfg, rr.pool, op)
+				if out := applyFox(rr.w, rr.w.R, rr.pool, op); !sameOut(out, want) {
+					rr.skip = true
+					break
+				}
+			}
+			res.inc("rounds_with_a_pattern_under_ten_long_verbs")
+			if rr.skip {
+				res.inc("runs_stopped_setup_write_disagrees_with_map_model")
+				break
+			}
+		}
 		// a twin router with the same options and routes but fox's built-in special handlers (WithNoMethod /
 		// WithAutoOptions without custom handlers): it must give the same status class and the same Allow header
 		rr.twin = nil
